@@ -2,6 +2,7 @@ package main
 
 import (
 	"fmt"
+	"go/constant"
 	"go/token"
 	"go/types"
 	"sort"
@@ -19,7 +20,7 @@ func init() {
 	register(&Property{
 		ID:        "C07",
 		Title:     "Indexed selector matching equals direct selector evaluation",
-		Technique: "static analysis: cut-set guard / dominance pairing on InheritIndex match bookkeeping, reachability of rescans from every input write, partial evaluation of each leaf Node's Evaluate against its LabelRestrictions (go/ssa)",
+		Technique: "static analysis: cut-set guard / dominance pairing on InheritIndex match bookkeeping, reachability of rescans from every input write, partial evaluation of each leaf Node's Evaluate against its LabelRestrictions, symbolic execution of the And/Or restriction-merge loops with a truth-table check per LabelRestriction field, guard/order analysis of the parent registry (go/ssa)",
 		DesignRef: "DESIGN.md §3 C07",
 		Explanation: "Decides (alternate) every OnMatchStarted/OnMatchStopped invocation of InheritIndex is guarded by non-membership/membership of the (selector,item) pair in one of the two match maps, " +
 			"performs the matching Add/Discard on that map and the mirror map on the same path, and nothing else mutates, replaces or drops entries of the match maps (map entries created only empty-on-miss, deleted only when empty); " +
@@ -27,8 +28,10 @@ func init() {
 			"(rescan) every write to the item map, the selector map, or a field read by the item's GetHandle is followed (selectors: accompanied) by a call that reaches both the start and the stop function; " +
 			"(restrict) for each of the 10 leaf Node types a partial evaluation of Evaluate under label-absent / label-present agrees with the literal returned by LabelRestrictions " +
 			"(MustBePresent ⇒ absent→false; MustHaveOneOfValues ⇒ absent→false and present→ val==node.F / node.F.Contains(val) on the same field; key = the label looked up), " +
-			"and NotNode only derives MustBeAbsent from operand types whose Evaluate is constantly true when the label is present.",
-		NotDecided: "That the match relation equals evaluation over histories (only the per-step bookkeeping is decided); soundness of the AndNode/OrNode combination arithmetic, of LabelRestrictionIndex/LabelNameValueIndex candidate selection and of the scan strategies in named_port_index.go; contents of sets at run time.",
+			"and NotNode only derives MustBeAbsent from operand types whose Evaluate is constantly true when the label is present; " +
+			"(combine) for every Node type with an operand list (And/Or, classified as conjunction/disjunction from its Evaluate), every path of the loop that merges an operand's restrictions into the accumulated map is executed symbolically and, per field of LabelRestriction (enumerated from the struct), a disjunction keeps a bool restriction only if both merged entries impose it and a value list only if both are non-nil and the result is computed from both, a conjunction only if one of the entries imposes it; a disjunction merges every operand; " +
+			"(parentreg) a parent registry entry is deleted only when it has no children and no labels (tested on the entry deleted); on a parents update an item is unregistered from / the registry entry dropped for an old parent only if that parent is not among the new parents (membership test using the same projection of old and new parents) or after re-registration; an item's parent list holds registry objects only — so every parent an item references is the object that receives that parent's label updates.",
+		NotDecided: "That the match relation equals evaluation over histories (only the per-step bookkeeping is decided); that the helpers merging two value lists really compute union (Or) / intersection (And) — only that the result is derived from both lists under the right nil-guards; soundness of LabelRestrictionIndex/LabelNameValueIndex candidate selection and of the scan strategies in named_port_index.go; contents of sets at run time.",
 		Assumptions: []string{
 			"go/types + go/ssa (x/tools v0.50.0) model of the current source, CGO_ENABLED=0 build",
 			"set.Typed has set semantics (Add/Discard/Contains/Len); methods other than String/Len/Contains/All/Copy/Slice/Equals/ContainsAll are treated as mutators",
@@ -61,6 +64,26 @@ func init() {
 				Old: "\tparent.labels = uniquelabels.Make(labels) // FIXME intern further upstream?\n\tidx.flushChildren(parentID)\n", New: "\tparent.labels = uniquelabels.Make(labels) // FIXME intern further upstream?\n", Expect: "C07.rescan/InheritIndex.UpdateParentLabels"},
 			{Name: "endpoint deletion without flush", File: "felix/labelindex/label_inheritance_index.go",
 				Old: "\tidx.onItemParentsUpdate(id, oldParents, nil)\n\tidx.dirtyItemIDs.Add(id)\n\tidx.flushUpdates()\n", New: "\tidx.onItemParentsUpdate(id, oldParents, nil)\n\tidx.dirtyItemIDs.Add(id)\n", Expect: "C07.rescan/InheritIndex.DeleteLabels"},
+			{Name: "item removed from every old parent, still-current ones included (parent dropped while referenced)", File: "felix/labelindex/label_inheritance_index.go",
+				Old: "\t\tif currentParentIDs.Contains(parent.id) {\n\t\t\t// Make sure we don't delete current parents from the index.\n\t\t\tcontinue\n\t\t}\n", New: "", Expect: "C07.parentreg/drop/InheritIndex.onItemParentsUpdate"},
+			{Name: "current-parent set filled with pointers but queried with ids", File: "felix/labelindex/label_inheritance_index.go",
+				Old: "\t\tcurrentParentIDs.Add(parentData.id)\n", New: "\t\tcurrentParentIDs.Add(parentData)\n", Expect: "C07.parentreg/drop/InheritIndex.onItemParentsUpdate"},
+			{Name: "parent with labels but no children forgotten", File: "felix/labelindex/label_inheritance_index.go",
+				Old: "\tif parent.itemIDs == nil && parent.labels.IsNil() {\n", New: "\tif parent.itemIDs == nil || parent.labels.IsNil() {\n", Expect: "C07.parentreg/delete/InheritIndex.discardParentIfEmpty"},
+			{Name: "item references a private parent object instead of the registered one", File: "felix/labelindex/label_inheritance_index.go",
+				Old: "\t\t\tparents[i] = idx.getOrCreateParent(pID)\n", New: "\t\t\tparents[i] = &parentData{id: pID}\n", Expect: "C07.parentreg/refs/InheritIndex.UpdateLabels"},
+			{Name: "Or keeps MustBeAbsent if ANY operand imposes it (copy-paste from And)", File: "libcalico-go/lib/selector/parser/ast.go",
+				Old: "\t\t\tr.MustBeAbsent = r.MustBeAbsent && opr.MustBeAbsent\n", New: "\t\t\tr.MustBeAbsent = r.MustBeAbsent || opr.MustBeAbsent\n", Expect: "C07.combine/OrNode/MustBeAbsent"},
+			{Name: "Or keeps MustBePresent if ANY operand imposes it", File: "libcalico-go/lib/selector/parser/ast.go",
+				Old: "\t\t\tr.MustBePresent = r.MustBePresent && opr.MustBePresent\n", New: "\t\t\tr.MustBePresent = r.MustBePresent || opr.MustBePresent\n", Expect: "C07.combine/OrNode/MustBePresent"},
+			{Name: "Or keeps one operand's value list when the other operand does not limit the value", File: "libcalico-go/lib/selector/parser/ast.go",
+				Old: "\t\t\t\tif r.MustHaveOneOfValues == nil || opr.MustHaveOneOfValues == nil {\n", New: "\t\t\t\tif r.MustHaveOneOfValues == nil && opr.MustHaveOneOfValues == nil {\n", Expect: "C07.combine/OrNode/MustHaveOneOfValues"},
+			{Name: "Or leaves the first operand's restriction in place when the other operand has none for the label", File: "libcalico-go/lib/selector/parser/ast.go",
+				Old: "\t\t\topr := opLR[ln]\n", New: "\t\t\topr, ok := opLR[ln]\n\t\t\tif !ok {\n\t\t\t\tcontinue\n\t\t\t}\n", Expect: "C07.combine/OrNode/MustBePresent"},
+			{Name: "Or does not merge its second operand", File: "libcalico-go/lib/selector/parser/ast.go",
+				Old: "\tlr := node.Operands[0].LabelRestrictions()\n\tfor _, op := range node.Operands[1:] {\n", New: "\tlr := node.Operands[0].LabelRestrictions()\n\tfor _, op := range node.Operands[2:] {\n", Expect: "C07.combine/OrNode/operands"},
+			{Name: "And derives MustBeAbsent from an operand's MustBePresent (field mix-up)", File: "libcalico-go/lib/selector/parser/ast.go",
+				Old: "\t\t\tbase.MustBeAbsent = base.MustBeAbsent || r.MustBeAbsent\n", New: "\t\t\tbase.MustBeAbsent = base.MustBeAbsent || r.MustBePresent\n", Expect: "C07.combine/AndNode/MustBeAbsent"},
 			{Name: "a != 'b' claims the label must be present", File: "libcalico-go/lib/selector/parser/ast.go",
 				Old: "func (node *LabelNeValueNode) LabelRestrictions() map[uniquestr.Handle]LabelRestriction {\n\treturn nil\n}", New: "func (node *LabelNeValueNode) LabelRestrictions() map[uniquestr.Handle]LabelRestriction {\n\treturn map[uniquestr.Handle]LabelRestriction{node.LabelName: {MustBePresent: true}}\n}", Expect: "C07.restrict/LabelNeValueNode"},
 			{Name: "contains restricted to the exact value", File: "libcalico-go/lib/selector/parser/ast.go",
@@ -269,6 +292,8 @@ func runC07(c *Ctx) {
 	c.Rule("C07.alternate", "E-GUARD/E-PAIR/E-OWN", "each OnMatchStarted/OnMatchStopped call is guarded by (non-)membership of the pair in a match map, paired with Add/Discard on that map and its mirror; match maps are mutated, created and dropped nowhere else", 16)
 	c.Rule("C07.eval", "E-GUARD", "the start function is only called under EvaluateLabels()==true, and the stop function is called on the false edge of the same evaluation with the same ids", 2)
 	c.Rule("C07.rescan", "E-ORDER", "every write to the item map, selector map or a field read by the items' GetHandle is post-dominated (selector map: accompanied) by a call reaching the start and stop functions", 6)
+	c.Rule("C07.combine", "symbolic execution", "per Node type with an operand list and per LabelRestriction field: on every path of the loop merging an operand's restrictions into the accumulated ones, a disjunction (per Evaluate) keeps a restriction only if both entries impose it (value lists: both non-nil and computed from both), a conjunction only if one of them does; a disjunction merges every operand", 7)
+	c.Rule("C07.parentreg", "E-GUARD/E-ORDER/E-FLOW", "a parent registry entry is deleted only when it has no children and no labels; an item is unregistered from / the registry entry dropped for an old parent only if that parent is not among the item's new parents (or after re-registration); an item's parent list holds registry objects only", 4)
 	c.Rule("C07.restrict", "partial-eval", "per leaf Node type: LabelRestrictions literal is implied by Evaluate partially evaluated under label absent/present; NotNode derives MustBeAbsent only from always-true-when-present operands", 11)
 
 	m := c07BuildModel(c, p)
@@ -276,6 +301,8 @@ func runC07(c *Ctx) {
 	c07Eval(c, m, starts, stops)
 	c07Rescan(c, m, starts, stops)
 	c07Restrict(c, p)
+	c07ParentReg(c, p, "C07.parentreg")
+	c07Combine(c, p)
 }
 
 func c07BuildModel(c *Ctx, p *Prog) *c07Model {
@@ -1034,4 +1061,290 @@ func sortedVals(m map[ssa.Value]string) []string {
 	}
 	sort.Strings(out)
 	return out
+}
+
+// --------------------------------------------------------------- combine --
+
+func c07Combine(c *Ctx, p *Prog) {
+	pk := p.Pkg(c07ParserPkg)
+	nodeTN, _ := p.LookupObj(c07ParserPkg, "Node").(*types.TypeName)
+	lrTN, _ := p.LookupObj(c07ParserPkg, "LabelRestriction").(*types.TypeName)
+	if pk == nil || nodeTN == nil || lrTN == nil {
+		c.Lost("parser.Node / parser.LabelRestriction")
+	}
+	lrST, _ := lrTN.Type().Underlying().(*types.Struct)
+	nodeI, _ := nodeTN.Type().Underlying().(*types.Interface)
+	if lrST == nil || nodeI == nil {
+		c.Lost("parser.LabelRestriction is not a struct / parser.Node is not an interface")
+	}
+	if lrST.NumFields() == 0 || lrST.NumFields() > 8 {
+		c.Lost("parser.LabelRestriction has %d fields (the combination check enumerates 4^fields cases)", lrST.NumFields())
+	}
+	method := func(t types.Type, name string) *ssa.Function {
+		obj, _, _ := types.LookupFieldOrMethod(t, true, pk.Types, name)
+		f, _ := obj.(*types.Func)
+		if f == nil {
+			return nil
+		}
+		sf := p.SSA.FuncValue(f)
+		if sf == nil || sf.Blocks == nil {
+			return nil
+		}
+		return sf
+	}
+	// composite node types: a struct with a []Node field
+	type comp struct {
+		name string
+		ptr  types.Type
+		fld  *types.Var
+	}
+	var comps []comp
+	sc := pk.Types.Scope()
+	for _, name := range sc.Names() {
+		tn, ok := sc.Lookup(name).(*types.TypeName)
+		if !ok || tn.IsAlias() {
+			continue
+		}
+		st, ok := tn.Type().Underlying().(*types.Struct)
+		if !ok || !(types.Implements(tn.Type(), nodeI) || types.Implements(types.NewPointer(tn.Type()), nodeI)) {
+			continue
+		}
+		for i := 0; i < st.NumFields(); i++ {
+			if sl, ok := st.Field(i).Type().Underlying().(*types.Slice); ok && types.Identical(sl.Elem(), nodeTN.Type()) {
+				comps = append(comps, comp{name, types.NewPointer(tn.Type()), st.Field(i)})
+			}
+		}
+	}
+	if len(comps) == 0 {
+		c.Lost("no Node implementation with a []Node operand list")
+	}
+	for _, cm := range comps {
+		ev, lr := method(cm.ptr, "Evaluate"), method(cm.ptr, "LabelRestrictions")
+		if ev == nil || lr == nil {
+			c.Lost("%s.Evaluate / LabelRestrictions", cm.name)
+		}
+		site := p.Pos(lr.Pos())
+		keyOf := func(i int) string { return "C07.combine/" + cm.name + "/" + lrST.Field(i).Name() }
+		allUndecided := func(format string, a ...any) {
+			for i := 0; i < lrST.NumFields(); i++ {
+				c.Undecided(keyOf(i), site, format, a...)
+			}
+		}
+		// ---- disjunction or conjunction?  From Evaluate's short-circuit return.
+		isOperandEval := func(cs CallSite) bool {
+			cc := cs.Common()
+			return cc.IsInvoke() && cc.Method.Name() == "Evaluate" && types.Identical(cc.Value.Type(), nodeTN.Type())
+		}
+		var shortTrue, shortFalse, otherTrue, otherFalse, odd int
+		for _, r := range returnsOf(ev) {
+			cv, ok := constOf(r.Results[0])
+			if len(r.Results) != 1 || !ok || cv.Kind() != constant.Bool {
+				odd++
+				continue
+			}
+			b := constant.BoolVal(cv)
+			switch {
+			case b && guardedCut(r, callCond(true, isOperandEval)):
+				shortTrue++
+			case !b && guardedCut(r, callCond(false, isOperandEval)):
+				shortFalse++
+			case b:
+				otherTrue++
+			default:
+				otherFalse++
+			}
+		}
+		var disj bool
+		switch {
+		case odd == 0 && shortTrue > 0 && shortFalse == 0 && otherTrue == 0 && otherFalse > 0:
+			disj = true
+		case odd == 0 && shortFalse > 0 && shortTrue == 0 && otherFalse == 0 && otherTrue > 0:
+			disj = false
+		default:
+			allUndecided("%s.Evaluate is neither `true as soon as one operand is true, else false` nor `false as soon as one operand is false, else true`", cm.name)
+			continue
+		}
+		kind := map[bool]string{true: "disjunction", false: "conjunction"}[disj]
+		// ---- the accumulated maps: whatever LabelRestrictions returns
+		result := map[ssa.Value]bool{}
+		bad := ""
+		for _, ret := range returnsOf(lr) {
+			for _, o := range origins(ret.Results[0], nil) {
+				switch x := o.V.(type) {
+				case *ssa.Const:
+					if x.Value != nil {
+						bad = "non-nil constant returned"
+					}
+				case *ssa.MakeMap:
+					result[x] = true
+				case *ssa.Call:
+					if x.Common().IsInvoke() && x.Common().Method.Name() == "LabelRestrictions" {
+						result[x] = true
+					} else {
+						bad = "returned map comes from " + path(x)
+					}
+				default:
+					bad = fmt.Sprintf("returned map has an origin that is not a map literal, nil or an operand's restrictions (%T)", o.V)
+				}
+			}
+		}
+		if bad != "" || len(result) == 0 {
+			allUndecided("%s.LabelRestrictions: %s", cm.name, bad)
+			continue
+		}
+		// ---- merge loops
+		perField := map[int][]string{}
+		unsure := map[int][]string{}
+		nLoops := 0
+		allInstrs(lr, false, func(_ *ssa.Function, in ssa.Instruction) {
+			nx, ok := in.(*ssa.Next)
+			if !ok || nx.IsString {
+				return
+			}
+			rg, ok := nx.Iter.(*ssa.Range)
+			if !ok {
+				return
+			}
+			cb := &c07Comb{fn: lr, st: lrST, nf: lrST.NumFields(), result: result, disj: disj,
+				allocs: map[*ssa.Alloc][]c07Sym{}, vals: map[ssa.Value]c07Sym{}, pred: map[*ssa.BasicBlock]*ssa.BasicBlock{}}
+			entry := cb.classifyMap(rg.X)
+			if entry < 0 {
+				return
+			}
+			// does the body write the accumulated map?
+			head := nx.Block()
+			writes := false
+			seen := map[*ssa.BasicBlock]bool{head: true}
+			st := []*ssa.BasicBlock{head.Succs[0]}
+			for len(st) > 0 {
+				b := st[len(st)-1]
+				st = st[:len(st)-1]
+				if seen[b] {
+					continue
+				}
+				seen[b] = true
+				for _, bi := range b.Instrs {
+					if mu, ok := bi.(*ssa.MapUpdate); ok && result[mu.Map] {
+						writes = true
+					}
+					if dc, ok := isBuiltinCall(bi, "delete"); ok && result[dc.Args[0]] {
+						writes = true
+					}
+				}
+				st = append(st, b.Succs...)
+			}
+			if !writes {
+				return
+			}
+			nLoops++
+			for _, r := range *nx.Referrers() {
+				if ex, ok := r.(*ssa.Extract); ok && ex.Index == 1 {
+					cb.key = ex
+				}
+			}
+			if cb.key == nil {
+				unsure[-1] = append(unsure[-1], "the merge loop does not bind the label (map key) it merges")
+				return
+			}
+			for _, f := range cb.run(nx, entry) {
+				if f.unsure {
+					unsure[f.field] = append(unsure[f.field], f.text)
+				} else {
+					perField[f.field] = append(perField[f.field], f.text)
+				}
+			}
+		})
+		if nLoops == 0 {
+			allUndecided("%s.LabelRestrictions has no `for label, r := range <restrictions>` loop that writes the returned map", cm.name)
+			continue
+		}
+		for i := 0; i < lrST.NumFields(); i++ {
+			fname := lrST.Field(i).Name()
+			switch {
+			case len(perField[i]) > 0:
+				why := "matches when ANY operand matches, so a restriction may only be kept if EVERY operand imposes it"
+				if !disj {
+					why = "may only carry restrictions that one of its operands imposes"
+				}
+				sort.Slice(perField[i], func(a, b int) bool { return len(perField[i][a]) < len(perField[i][b]) })
+				first := perField[i][0]
+				if n := len(perField[i]) - 1; n > 0 {
+					first += fmt.Sprintf(" (and on %d more path(s))", n)
+				}
+				c.Violate(keyOf(i), site, "%s.LabelRestrictions over-restricts %s: %s. %s.Evaluate is a %s and %s; the summary excludes items the selector matches (with a contradictory restriction the selector is never indexed at all)",
+					cm.name, fname, first, cm.name, kind, why)
+			case len(unsure[i]) > 0 || len(unsure[-1]) > 0:
+				c.Undecided(keyOf(i), site, "%s.LabelRestrictions (%s): %s", cm.name, kind, strings.Join(append(unsure[i], unsure[-1]...), "; "))
+			default:
+				c.Ok(keyOf(i), site, "%s is a %s; on every path of %d merge loop(s) %s is kept only when justified by %s", cm.name, kind, nLoops, fname,
+					map[bool]string{true: "both entries", false: "one of the entries"}[disj])
+			}
+		}
+		// ---- a disjunction must merge every operand
+		if disj {
+			key := "C07.combine/" + cm.name + "/operands"
+			covered0, lowMax, nCalls, odd2 := false, int64(-1), 0, ""
+			for _, cs := range callsIn(lr, false, func(f *types.Func) bool { return f.Name() == "LabelRestrictions" }) {
+				cc := cs.Common()
+				if !cc.IsInvoke() {
+					continue
+				}
+				nCalls++
+				ld, ok := cc.Value.(*ssa.UnOp)
+				var ia *ssa.IndexAddr
+				if ok {
+					ia, _ = ld.X.(*ssa.IndexAddr)
+				}
+				if ia == nil {
+					odd2 = "an operand is not taken from the operand list by index/range"
+					continue
+				}
+				switch base := ia.X.(type) {
+				case *ssa.Slice:
+					if fieldVar(base.X) != cm.fld {
+						odd2 = "operands are ranged from something other than node." + cm.fld.Name()
+						continue
+					}
+					low := int64(0)
+					if base.Low != nil {
+						cv, ok := constOf(base.Low)
+						if !ok {
+							odd2 = "operand sub-slice has a non-constant lower bound"
+							continue
+						}
+						low, _ = constant.Int64Val(cv)
+					}
+					if base.High != nil {
+						odd2 = "operand sub-slice has an upper bound"
+					}
+					if low > lowMax {
+						lowMax = low
+					}
+				default:
+					if fieldVar(ia.X) != cm.fld {
+						odd2 = "operands are taken from something other than node." + cm.fld.Name()
+						continue
+					}
+					if cv, ok := constOf(ia.Index); ok {
+						if iv, _ := constant.Int64Val(cv); iv == 0 {
+							covered0 = true
+						}
+					} else if lowMax < 0 {
+						lowMax = 0 // ranged over the whole list
+					}
+				}
+			}
+			switch {
+			case nCalls == 0:
+				c.Undecided(key, site, "%s.LabelRestrictions never asks an operand for its restrictions", cm.name)
+			case odd2 != "":
+				c.Undecided(key, site, "%s.LabelRestrictions: %s", cm.name, odd2)
+			default:
+				good := lowMax == 0 || (lowMax == 1 && covered0)
+				c.Check(good, key, site,
+					fmt.Sprintf("restrictions of operand 0 (%v) and of operands[%d:] are merged", covered0, lowMax),
+					fmt.Sprintf("%s.LabelRestrictions merges operand 0: %v and operands[%d:] only: an operand that is left out cannot veto a restriction, so the summary of the disjunction may exclude items that operand matches", cm.name, covered0, lowMax))
+			}
+		}
+	}
 }
